@@ -79,7 +79,7 @@ CHECKS = {
     "C09": dict(
         engine="E2",
         category="exploration",
-        text="Seeded deterministic simulation of whole DomainParticipants (engine E2: the real event-loop and discovery threads run under a baton scheduler on simulated time and a simulated network). A real reader participant is matched through real discovery with real writers of a second participant, which then goes silent; a scripted peer speaks with the writers' GUIDs and sends, at every position including the head of the queue, undecodable CDR, unknown representation ids, key-only disposes with undecodable key, disposes by known and by never-seen key hash, among intelligible values and disposes, for reliable/best-effort, with_key/no_key readers. The cache is drained through DataReader::take / take_next_sample / into_iterator / async stream and no_key SimpleDataReader try_take_one / async stream, interleaved with arrivals. Oracle: every call returns (wall-clock watchdog on the forked run), at most one error per bad change, every intelligible change of every writer delivered once, in order.",
+        text="Seeded deterministic simulation of whole DomainParticipants (engine E2: the real event-loop and discovery threads run under a baton scheduler on simulated time and a simulated network). A real reader participant is matched through real discovery with real writers of a second participant, which then goes silent; a scripted peer speaks with the writers' GUIDs and sends, at every position including the head of the queue, undecodable CDR, unknown representation ids, key-only disposes with undecodable key, disposes by known and by never-seen key hash (also in runs of 12-52 while the application is busy), among intelligible values and disposes, for reliable/best-effort, with_key/no_key readers. The cache is drained through DataReader::take / take_next_sample / into_iterator / async stream and no_key SimpleDataReader try_take_one / async stream, interleaved with arrivals. Oracle: every call returns (wall-clock watchdog on the forked run), at most one error per bad change, every intelligible change of every writer delivered once, in order.",
         design_ref="DESIGN.md section 5 C09, section 12",
         note="Hang detection is wall clock (10 s per run in a forked child); the watchdog reports the decisions drawn so far as the replay. Found and fixed: endless loop on dispose-by-unknown-key-hash (f46dea5).",
         technique=TECH + "; whole-participant simulation with scripted wire traffic and a delivered-once-in-order oracle",
@@ -95,7 +95,7 @@ CHECKS = {
     "C12": dict(
         engine="E2",
         category="exploration",
-        text="Seeded deterministic simulation (engine E2) of one real DomainParticipant, observed through its public status events, and two scripted remote participants on the simulated network and clock. B advertises a lease from {absent, 0.5 s, 1 s, 3 s, 10 s, infinite} and follows a seed-chosen sequence of fresh announcements, re-sent announcements (same sequence number, RTPS 8.5.3.3), silences of 0.1/0.5/0.9/1.2 x lease, lease - 30 ms, lease + 2.5 s, 3 x lease or 70 s, disposes and SEDP announcements of a writer and a reader, at a seed-chosen phase of the 2 s clean-up tick, in either byte order, to the multicast or the unicast locator; C announces every second with a 3 s lease throughout. After every 1-10 ms slice: a Timeout loss only if nothing had arrived for longer than the advertised lease (100 s when absent), never with an infinite lease; a loss at the latest lease + clean-up period + 0.3 s after the last arrival; a dispose reported as Disposed within 0.3 s; every (re)appearance reported as discovered within 0.3 s; the participant's endpoints unmatched from the local reader and writer within 0.3 s of the loss and matched again within 1 s when a timed-out participant reappears; C is never lost.",
+        text="Seeded deterministic simulation (engine E2) of one real DomainParticipant, observed through its public status events, and two scripted remote participants on the simulated network and clock. B advertises a lease from {absent, 0.5 s, 1 s, 3 s, 10 s, infinite} and follows a seed-chosen sequence of fresh announcements, re-sent announcements (same sequence number, RTPS 8.5.3.3), silences of 0.1/0.5/0.9/1.2 x lease, lease - 30 ms, lease + 2.5 s, 3 x lease or 70 s, disposes and SEDP announcements of a writer and a reader, at a seed-chosen phase of the 2 s clean-up tick, in either byte order, to the multicast or the unicast locator; C announces every second with a 3 s lease throughout. After every 1-10 ms slice: a Timeout loss only if nothing had arrived for longer than the advertised lease (100 s when absent), never with an infinite lease; a loss at the latest lease + clean-up period + 0.3 s after the last arrival; a dispose reported as Disposed within 0.3 s; every (re)appearance reported as discovered within 0.3 s; the participant's endpoints unmatched from the local reader and writer within 0.3 s of the loss and matched again within 1 s when a timed-out participant reappears; C is never lost and, when it has endpoints, they stay matched.",
         design_ref="DESIGN.md section 5 C12, section 12",
         note="Signs of life are SPDP DATA submessages (fresh or re-sent); ParticipantMessage liveliness assertions are not exercised (RustDDS applies them to writer liveliness only). The scripted participants' payload bytes come from RustDDS' own PL_CDR serialisers. Found and fixed: default lease 60 s instead of RTPS' 100 s (2a7d23c); a timed-out participant re-sending its announcement under the same sequence number was never rediscovered (d171d61); endpoints of a reappeared participant not rematched (ceba711, found by C07).",
         technique=TECH + "; timed obligations (safety and bounded liveness) on status events against a lease model on the simulated clock",
@@ -103,7 +103,7 @@ CHECKS = {
     "C13": dict(
         engine="E2",
         category="exploration",
-        text="Seeded deterministic simulation (engine E2) of a real writer participant and a real reader participant, matched through real discovery, over a network with loss up to 20 %, duplication and jitter. The application is parked between readiness signals: it touches the reader, or re-polls a future, only after its waker was invoked or its mio source reported readable. Consumer forms: DataReader async sample stream, bare stream, no_key stream, SimpleDataReader stream (a task re-polled only when woken), mio-0.6 readiness (blocking shim Poll that drives the simulated world), mio-0.8 readiness (the real socketpair source under a real zero-timeout mio-0.8 Poll), each followed by take-until-empty; writer side: async_write against a command queue filled behind a stalled event loop, async_wait_for_acknowledgments, and wait_for_acknowledgments with a timeout (reader reachable or cut off). Oracle: 30 simulated seconds after the last write and fault every sample has reached the application, in order and unaltered; when not, one unconditional look tells a lost wake-up (the samples were there) from failed delivery; a pending future completes within 30 s once its condition holds; the synchronous wait never answers true without a possible acknowledgment, false not before its timeout, and not late.",
+        text="Seeded deterministic simulation (engine E2) of a real writer participant and a real reader participant, matched through real discovery, over a network with loss up to 20 %, duplication and jitter. The application is parked between readiness signals: it touches the reader, or re-polls a future, only after its waker was invoked or its mio source reported readable. Consumer forms: DataReader async sample stream, bare stream, no_key stream, SimpleDataReader stream (a task re-polled only when woken), mio-0.6 readiness (blocking shim Poll that drives the simulated world), mio-0.8 readiness (the real socketpair source under a real zero-timeout mio-0.8 Poll), each followed by take-until-empty; writer side: async_write against a command queue filled behind a stalled event loop, async_wait_for_acknowledgments (also asked for with a full command queue while the reader cannot be heard: it must stay pending), and wait_for_acknowledgments with a timeout (reader reachable or cut off). Oracle: 30 simulated seconds after the last write and fault every sample has reached the application, in order and unaltered; when not, one unconditional look tells a lost wake-up (the samples were there) from failed delivery; a pending future completes within 30 s once its condition holds; the synchronous wait never answers true without a possible acknowledgment, false not before its timeout, and not late.",
         design_ref="DESIGN.md section 5 C13, section 12",
         note="Interleaving granularity is the event loop's poll turn (seed-chosen prefixes of its pending events), datagram delivery order and the time slices between application steps. The lock-release granularity named in the property's quantifier would need yield hooks inside RustDDS (planned hook H6) and was not built: a race that needs a preemption between two statements of one event-loop turn is outside what this check can reach. Found and fixed: AsyncWaitForAcknowledgments answered Pending without leaving a waker anywhere (8d2c580).",
         technique=TECH + "; parked-application executor (re-poll only when woken / readable) with a bounded-liveness oracle and a lost-wake-up discriminator",
@@ -120,7 +120,7 @@ CHECKS = {
     "C19": dict(
         engine="E3",
         category="exploration",
-        text="Seeded deterministic simulation (engine E3) of the authentication handshake between real AuthenticationBuiltin plugin instances whose identities come from fixture files (participant1: the shipped certificate; participant2: issued with the shipped Identity CA key; an outsider with the same subject certified by another CA). The simulator owns the channel: before each of the three genuine messages it injects 0-3 of {a copy with one field altered (bit flip, cut, emptied, removed, replaced by the same field of another message, class id changed), a replay of an earlier message of this or an earlier session, the wrong message of the session for this point, a request or a certificate of the foreign-CA participant, participant data whose GUID is not bound to the certificate}. Oracle: process_handshake answers Ok / OkFinalMessage only to the genuine message of the running session; after any rejected (or answered-but-forged) message the genuine message is still served, in the same session or after the handshake is started again (at most twice); when both sides are done their shared secrets and both challenges are identical; a full attempt of the foreign-CA participant against a genuine one gets neither a reply nor a completion.",
+        text="Seeded deterministic simulation (engine E3) of the authentication handshake between real AuthenticationBuiltin plugin instances whose identities come from fixture files (participant1: the shipped certificate; participant2: issued with the shipped Identity CA key; an outsider with the same subject certified by another CA). The simulator owns the channel: before each of the three genuine messages it injects 0-3 of {a copy with one field altered (bit flip, cut, emptied, removed, replaced by the same field of another message, class id changed), a replay of an earlier message of this or an earlier session, the wrong message of the session for this point, a request or a certificate of a foreign-CA participant (with the subject name of either genuine participant, its own or the genuine initiator's participant data), participant data whose GUID is not bound to the certificate}; when a foreign-CA request is answered the forger signs a final message with its own key; 0-3 stray (replayed or altered) messages follow completion; in half of the runs the outsider was seen in discovery first (other handle values, a third remote in the tables). Oracle: process_handshake answers Ok / OkFinalMessage only to the genuine message of the running session; after any rejected (or answered-but-forged) message the genuine message is still served, in the same session or after the handshake is started again (at most twice); when both sides are done their shared secrets and both challenges are identical and stay what they are under stray messages; no handshake ever completes with a foreign-CA identity and a participant only seen in discovery never holds a shared secret.",
         design_ref="DESIGN.md section 5 C19, section 12",
         note="Plugin level only: Discovery's ParticipantStatelessMessage plumbing, its related-message-identity filter and resend timers, and the crypto/access-control plugins are not in this engine (a whole-participant security smoke test, X02, showed the handshake completing but user data failing to decode in simulation; not resolved, see DESIGN.md 12.6). Leaving out a field the specification marks optional (hash_c1, hash_c2, echoed dh1/dh2) is not counted as an alteration. Answering an altered request is not counted as authentication (a request is not signed); what is required is that the genuine request is still answered. Built with the crate's `security` feature into /verif/target-sec. Found and fixed (3b1d761): any rejected message destroyed the handshake state (the genuine reply was then refused for ever; a stray message after completion cost the shared secret), and a forged request answered first blocked the genuine request.",
         technique=TECH + "; real plugin instances as parties with a simulator-owned channel (alteration, replay, reordering, forgery) and safety/liveness oracles on the plugin calls",
